@@ -671,6 +671,7 @@ static int run_faults(struct vf_rng *r, long idx)
 		vf_sample("transmission %ld: %s mode, %d page transmissions, %d packets, %d pages cached and %d events in the fault-free run",
 			  tn, net_serial ? "serial" : "parallel", n_tx, n_pk, S0.nk, S0.nev);
 		vf_count("transmissions", 1);
+		if (f_hex_pgno) vf_count("transmissions_with_hex_page_and_mip", 1);
 		vf_count("transmission_packets", n_pk);
 		/* the fault-free run itself must be reproducible and contain only transmitted pages */
 		run_stream(pks, n_pk, NULL, &SC);
